@@ -555,14 +555,7 @@ impl ServerSim {
         if !self.avoid_f6.get() || !self.tr.write_blocked() {
             return;
         }
-        let cancels_inbound =
-            self.tr.st.borrow().inbound.iter().filter(|m| matches!(m, Ok(ClientMessage::Cancel { .. }))).count();
-        let count = self
-            .probes
-            .in_flight
-            .get()
-            .unwrap_or(self.model_in_flight.borrow().len() + cancels_inbound)
-            .max(self.model_in_flight.borrow().len());
+        let count = self.f6_upper();
         if count >= l {
             self.tr.set_budget(UNLIMITED);
             self.excluded_known.set(self.excluded_known.get() + 1);
@@ -600,7 +593,7 @@ impl ServerSim {
                 format!("Panicked: {m}")
             }
         };
-        self.hist.push(Ev::PollEnd { task: t + 1000 * self.hop, out: o });
+        self.hist.push(Ev::PollEnd { task: t + 1000 * self.hop, out: o, woken: self.exec.is_woken(t) });
         self.after_poll();
         self.steer_f6_at_poll();
         out
@@ -665,9 +658,18 @@ impl ServerSim {
     }
 
     /// F6 region: limit configured ∧ in-flight (model) >= limit ∧ sink not ready.
+    /// Upper bound of what the channel itself counts as in flight: the model's set, plus requests the
+    /// environment already ended from its side (Cancel delivered but unread, handler or request object
+    /// dropped) that the channel has not processed yet.
+    fn f6_upper(&self) -> usize {
+        let cancels_inbound =
+            self.tr.st.borrow().inbound.iter().filter(|m| matches!(m, Ok(ClientMessage::Cancel { .. }))).count();
+        self.model_in_flight.borrow().len().max(self.probes.in_flight.get().unwrap_or(0)) + cancels_inbound + self.internal_pending.get() as usize
+    }
+
     pub fn in_f6_region(&self) -> bool {
         match self.cfg.limit {
-            Some(l) => self.model_in_flight.borrow().len() >= l && self.tr.write_blocked(),
+            Some(l) => self.f6_upper() >= l && self.tr.write_blocked(),
             None => false,
         }
     }
@@ -675,7 +677,7 @@ impl ServerSim {
     fn steer_f6(&self) {
         if self.avoid_f6.get() && self.cfg.limit.is_some() && self.tr.budget() != UNLIMITED {
             // restore the sink so that cancels / expirations are processed (finding F6 excluded by construction)
-            if self.model_in_flight.borrow().len() >= self.cfg.limit.unwrap() {
+            if self.f6_upper() >= self.cfg.limit.unwrap() {
                 self.tr.set_budget(UNLIMITED);
                 self.excluded_known.set(self.excluded_known.get() + 1);
                 self.hist.push(Ev::Note { text: "steered around F6: sink budget restored".into() });
@@ -1043,7 +1045,7 @@ impl ServerSim {
     fn steer_f6_before_time(&self) {
         if self.avoid_f6.get() {
             if let Some(l) = self.cfg.limit {
-                if self.model_in_flight.borrow().len() >= l && self.tr.budget() != UNLIMITED {
+                if self.f6_upper() >= l && self.tr.budget() != UNLIMITED {
                     self.tr.set_budget(UNLIMITED);
                     self.excluded_known.set(self.excluded_known.get() + 1);
                     self.hist.push(Ev::Note { text: "steered around F6: sink budget restored before advancing time".into() });
